@@ -231,7 +231,7 @@ func (x *fnExec) copyOp(fr *frame, st *State, cc *ssa.CallCommon, args []Val, re
 // ---------- externals ----------
 
 func (x *fnExec) byteAt(st *State, s Val, i uint64) *Term {
-	a := st.arr("E:byte", BV(8))
+	a := st.arr("E:uint8", BV(8))
 	return Select(Select(a, s.base()), BVBin("bvadd", s.off(), BVU(i, 64)))
 }
 
@@ -244,12 +244,12 @@ func (x *fnExec) requireLen(fr *frame, st *State, s Val, n uint64, ci ssa.CallIn
 }
 
 func (x *fnExec) putBytes(st *State, s Val, bs []*Term) {
-	a := st.arr("E:byte", BV(8))
+	a := st.arr("E:uint8", BV(8))
 	row := Select(a, s.base())
 	for i, b := range bs {
 		row = Store(row, BVBin("bvadd", s.off(), BVU(uint64(i), 64)), b)
 	}
-	st.setArr("E:byte", Store(a, s.base(), row))
+	st.setArr("E:uint8", Store(a, s.base(), row))
 }
 
 func (x *fnExec) external(fr *frame, st *State, ci ssa.CallInstruction, res ssa.Value, fn *ssa.Function, args []Val, fresh func(string) Val) {
@@ -355,7 +355,7 @@ func (x *fnExec) external(fr *frame, st *State, ci ssa.CallInstruction, res ssa.
 		a, b := args[0], args[1]
 		r := Fresh("bytesEqual", SBool)
 		x.assume(st, Implies(r, Eq(a.len(), b.len())))
-		arr := st.arr("E:byte", BV(8))
+		arr := st.arr("E:uint8", BV(8))
 		j := BVar("j", BV(64))
 		x.qfacts = append(x.qfacts, &QFact{seq: x.next(), pc: And(st.pc, r), vars: []*Term{j},
 			body:   Implies(BVCmp("bvult", j, a.len()), Eq(Select(Select(arr, a.base()), BVBin("bvadd", a.off(), j)), Select(Select(arr, b.base()), BVBin("bvadd", b.off(), j)))),
@@ -364,9 +364,11 @@ func (x *fnExec) external(fr *frame, st *State, ci ssa.CallInstruction, res ssa.
 		return
 	case "hash/crc32.Update":
 		// uninterpreted function of (crc, table, content): content identified by row contents over [off, off+len)
-		arr := st.arr("E:byte", BV(8))
+		// uninterpreted function of (crc, table, contents of p); "content" depends on the row only inside [off, off+len):
+		// that frame property is added as peel lemmas over store chains when the query is built (vc.go).
+		arr := st.arr("E:uint8", BV(8))
 		s := args[2]
-		r := App("crc32upd", BV(32), args[0].T, args[1].Ref, App("bytesid", BV(64), s.base(), s.off(), s.len(), App("rowid", BV(64), Select(arr, s.base()))))
+		r := App("crc32upd", BV(32), args[0].T, args[1].Ref, App("content", BV(64), Select(arr, s.base()), s.off(), s.len()))
 		set(scalar(r, resT))
 		return
 	case "errors.New", "fmt.Errorf":
@@ -419,8 +421,8 @@ func (x *fnExec) external(fr *frame, st *State, ci ssa.CallInstruction, res ssa.
 		if strings.Contains(name, "Read") || strings.Contains(name, "Put") || strings.Contains(name, "Encode") || strings.Contains(name, "Write") {
 			for _, a := range args {
 				if a.K == VSlice {
-					arr := st.arr("E:byte", BV(8))
-					st.setArr("E:byte", Store(arr, a.base(), Fresh("extbytes", Arr(BV(64), BV(8)))))
+					arr := st.arr("E:uint8", BV(8))
+					st.setArr("E:uint8", Store(arr, a.base(), Fresh("extbytes", Arr(BV(64), BV(8)))))
 				}
 			}
 		}
@@ -623,6 +625,46 @@ func (x *fnExec) atCall(fr *frame, st *State, ci ssa.CallInstruction, calleeKey 
 		env := &specEnv{x: x, vars: vars, cur: st, old: fr.entry, info: clp.Info, fr: fr, at: ci}
 		goal, hyp, sk := env.clauseGoal(clp)
 		o := x.obligation(st, fr.C.Key+":at call "+calleeKey+":assert#"+clp.Label, "assert", "call at "+x.P.Fset.Position(pos).String(), clauseTags(fr.C, clp), goal, hyp, clp.Src)
+		o.skolems = sk
+	}
+}
+
+// atStore emits the obligations of "at store Type.field assert" clauses for one store instruction.
+func (x *fnExec) atStore(fr *frame, st *State, s *ssa.Store, p Val, v Val) {
+	if fr.C == nil || fr.inline || len(fr.C.AtStores) == 0 {
+		return
+	}
+	for _, ac := range fr.C.AtStores {
+		if p.Prefix != "F:"+ac.Callee {
+			continue
+		}
+		x.atCallHits[ac]++
+		cl := *ac.Clause
+		clp := &cl
+		clp.Bound = append([]BoundVar(nil), ac.Clause.Bound...)
+		pos := s.Pos()
+		if !pos.IsValid() {
+			x.errors = append(x.errors, fmt.Sprintf("at store %s in %s: store has no position", ac.Callee, fr.C.Key))
+			continue
+		}
+		vt := s.Val.Type()
+		ptrT := types.NewPointer(types.Typ[types.Int])
+		_ = ptrT
+		extra := []string{"stored " + types.TypeString(vt, x.P.qualifier)}
+		x.P.bindClauseAt(fr.C, clp, pos, extra)
+		if clp.Info == nil {
+			x.errors = append(x.errors, fmt.Sprintf("at store %s in %s: %v", ac.Callee, fr.C.Key, clp.Err))
+			continue
+		}
+		vars := copyVars(fr.vars)
+		for _, pv := range clp.litParams() {
+			if pv != nil && pv.Name() == "stored" {
+				vars[pv] = v
+			}
+		}
+		env := &specEnv{x: x, vars: vars, cur: st, old: fr.entry, info: clp.Info, fr: fr, at: s}
+		goal, hyp, sk := env.clauseGoal(clp)
+		o := x.obligation(st, fr.C.Key+":at store "+ac.Callee+":assert#"+clp.Label, "assert", "store at "+x.P.Fset.Position(pos).String(), clauseTags(fr.C, clp), goal, hyp, clp.Src)
 		o.skolems = sk
 	}
 }
